@@ -70,6 +70,11 @@ CRAFTED = [
     # nodes with optional fields: the same number of present children in DIFFERENT slots must not match
     "p = items[n:]\nq = items[:n]\nr = items[::n]\ns = items[n:m]\nt = items[n::m]\nu = items[:n:m]\n",
     "def f(e, c):\n    raise e\ndef g(e, c):\n    raise e from c\ndef h(e, c):\n    try:\n        e = c\n        c = e\n    finally:\n        e = c\n        c = e\n    e = c\n    c = e\n",
+    # instances in the items of a with statement (a node without a region of its own above nodes that have one)
+    "with h(1, 2) as f, h(1, 3) as g:\n    x = h(1, 2)\nasync def co(p):\n    async with h(p, 2) as k, h(1, 2):\n        return h(p, 2)\n",
+    # the same statements nested in the first top-level statement and again at top level further down: with a region that
+    # ends after the first statement, the instance behind the region comes EARLIER in tree order than the one inside it
+    "def f(n):\n    a = n\n    b = a\n    if n:\n        a = n\n        b = a\n    return b\nc = 2\na = n\nb = a\nwith a as f, b as g:\n    a = n\n    b = a\n",
 ]
 
 
@@ -87,9 +92,10 @@ def enumerate_cases(tier, k, nworkers):
                 for share in (False, True):
                     for stmts in (0, 1, 2):
                         for goal in ("same", "wrap_permuted"):
-                            if i % nworkers == k:
-                                yield {"src": src, "node": node, "subs": subs, "share": share, "stmts": stmts, "region": None, "goal": goal}
-                            i += 1
+                            for region in ((None, [0, 0], [1, 0], [0, 1]) if not subs and not share else (None,)):
+                                if i % nworkers == k:
+                                    yield {"src": src, "node": node, "subs": subs, "share": share, "stmts": stmts, "region": region, "goal": goal}
+                                i += 1
 
 
 TYPED_SRC = (
